@@ -19,7 +19,7 @@ pub static C15: Scenario = Scenario {
     rule: "verifier-history: one long-lived GenericParser / PasetoParser::new() / PasetoParser::default() with expected set E (1..4 claims over registered and custom keys; string, number, boolean, array, object values; registered through check_claim or extend_check_claims) receives a stream of authentic tokens whose claim sets S_j are derived from E: equal, a claim dropped, a claim added, one value differing in type / letter case / number form / nested member, a key differing by one character, a null value; tokens are issued through the generic builder, the batteries builder or as core JSON payloads. The channel duplicates and reorders deliveries and interleaves tampered and mis-keyed strays; every delivery also goes to a freshly constructed twin (restart) under a different hash seed and to an expectation-free control parser. Oracle: unmet expectation -> Err, never Ok, the claim error names a key that really fails (Missing when only missing ones fail); all met -> accepted whenever the control accepts; the verdict class for a token is the same at every position of the stream and equal to the twin's. Latitude: 1 vs 1.0. Non-trivial = stream with an unmet expectation, a repeated delivery or a stray; distinct = distinct abstract traces.",
     runs: |t| match t {
         Tier::Quick => 20_000,
-        Tier::Thorough => 300_000,
+        Tier::Thorough => 1_500_000,
     },
     gen: |c, i| gen(c, i, "C15"),
     judge: |run, obs| oracle::judge("C15", run, obs),
@@ -33,7 +33,7 @@ pub static C16: Scenario = Scenario {
     rule: "verifier-history with validators: sets of 1..5 validate_claim registrations (accept, reject, accept-iff-value-equals-x; every call logged with registration slot, key and value) over registered and custom keys, present and absent in the payload, on GenericParser, PasetoParser::new() and PasetoParser::default() (whose own exp/nbf validators are observed through the clock seam); also registrations through extend_validation_claims with and without extend_check_claims. Deliveries: authentic, every kind of channel corruption, wrong key / footer / assertion / protocol, garbage; long-lived parser plus restart twin under a different hash seed so that every validator order occurs. Oracle per parse: not authentic -> call log empty and cipher-class Err; every logged call carries its registration key and payload[key] (null when absent); a rejecting validator -> Err(claim error); Ok -> every registered validator ran exactly once and returned Ok; no validator twice. Non-trivial = every run; distinct = distinct abstract traces.",
     runs: |t| match t {
         Tier::Quick => 20_000,
-        Tier::Thorough => 300_000,
+        Tier::Thorough => 1_500_000,
     },
     gen: |c, i| gen(c, i, "C16"),
     judge: |run, obs| oracle::judge("C16", run, obs),
